@@ -943,7 +943,12 @@ func (rule *RuleExpression) checkMatrix(m *Matrix) *ObjectType {
 
 	o := NewEmptyStrictObjectType()
 
-	for _, n := range keysInSourceOrder(m.Rows, func(r *MatrixRow) *String { return r.Name }) {
+	for _, n := range keysInSourceOrder(m.Rows, func(r *MatrixRow) *String {
+		if r.Name == nil {
+			return r.Expression // A row given by ${{ }} has no name node. Use the position of its value
+		}
+		return r.Name
+	}) {
 		r := m.Rows[n]
 		o.Props[n] = rule.checkMatrixRow(r)
 	}
@@ -1072,8 +1077,20 @@ func (rule *RuleExpression) checkRawYAMLValue(v RawYAMLValue) ExprType {
 	switch v := v.(type) {
 	case *RawYAMLObject:
 		m := make(map[string]ExprType, len(v.Props))
-		for k, p := range v.Props {
-			m[k] = rule.checkRawYAMLValue(p)
+		// Check the values in the order they are written in source. See keysInSourceOrder
+		ks := make([]string, 0, len(v.Props))
+		for k := range v.Props {
+			ks = append(ks, k)
+		}
+		sort.Slice(ks, func(i, j int) bool {
+			l, r := v.Props[ks[i]].Pos(), v.Props[ks[j]].Pos()
+			if l != nil && r != nil && *l != *r {
+				return l.IsBefore(r)
+			}
+			return ks[i] < ks[j]
+		})
+		for _, k := range ks {
+			m[k] = rule.checkRawYAMLValue(v.Props[k])
 		}
 		return NewStrictObjectType(m)
 	case *RawYAMLArray:
